@@ -50,6 +50,19 @@ class Spy:
         self.installed.clear()
 
 
+def table_keys(ds):
+    """(offset, bits) -> keys of the lookup table of the match field at that position (lookup-typed match fields)."""
+    database = canboat.db()
+    out = {}
+    for d in ds:
+        for f in d.fields:
+            if f.match is not None and f.type == "LOOKUP" and f.lookup in database.lookups:
+                keys = [k for k in database.lookups[f.lookup] if 0 <= k < (1 << f.bits)]
+                if len(keys) <= 600:
+                    out.setdefault((f.offset_bits, f.bits), set()).update(keys)
+    return out
+
+
 def positions(ds):
     pos = {}
     for d in ds:
@@ -115,15 +128,19 @@ def check_payload(ctx, db, dec, spy, pgn, ds, payload, nbytes, enc=None):
     return out, (spy.calls[0] if spy.calls else None)
 
 
-def perturbations(ds, pos, centre):
+def perturbations(ds, pos, centre, tables=None):
     """Single assignments that move a payload away from (or onto) a definition: every candidate value of every match position,
     and every one-bit neighbour of the centre's own value (what a wrong mask or constant would confuse)."""
+    tables = tables or {}
     out = []
     mine = {(off, bits): m for off, bits, m, _ in centre.matches} if centre is not None else {}
     for off, bits, vals, foreign in pos:
         cand = set(vals) | {foreign}
         if (off, bits) in mine:
             cand |= {mine[(off, bits)] ^ (1 << b) for b in range(bits)}
+            # every key of the field's lookup table (e.g. all manufacturer codes: an alias or a neighbouring entry of the table
+            # must not select the definition either)
+            cand |= tables.get((off, bits), set())
             cand.discard(mine[(off, bits)])
         for v in sorted(cand):
             out.append((off, bits, v))
@@ -145,6 +162,7 @@ def _work(ctx: Ctx, item):
             ds = db.by_pgn[pgn]
             spy.install(ds)
             pos = positions(ds)
+            tables = table_keys(ds)
             nbytes = max(max(d.nbytes() for d in ds), max(((off + bits + 7) // 8 for off, bits, _, _ in pos), default=1))
             nbytes = min(nbytes, 223)
             r = random.Random(seed * 100003 + pgn)    # filler plan derived from VERIF_SEED only
@@ -184,7 +202,7 @@ def _work(ctx: Ctx, item):
                     base += [(off, bits, m) for off, bits, m, _ in c.matches]
                 for b, w, cs in run_assigns(base, c is not None):
                     ctx.report(b, w, cs)
-                ps = perturbations(ds, pos, c)
+                ps = perturbations(ds, pos, c, tables)
                 singles_total += len(ps)
                 for p1 in ps:
                     for b, w, cs in run_assigns(base + [p1], True):
